@@ -342,3 +342,73 @@ Proof.
   - rewrite Hn in Hr. pose proof (Hres r Hr c v Hc) as Hok. rewrite Hs in Hok.
     destruct c; simpl in *; try exact I; try contradiction. lia.
 Qed.
+
+(* ------------------------------------------------------------------ DISTINCT removes duplicates ONLY *)
+Lemma pa_bytes_eqb_refl : forall a, bytes_eqb a a = true.
+Proof. induction a as [|x a IH]; simpl; [reflexivity|]. rewrite N.eqb_refl. exact IH. Qed.
+
+Lemma pa_val_eqb_refl : forall v, pa_val_eqb v v = true.
+Proof.
+  intros [x|s| |b]; simpl.
+  - apply Qeq_bool_iff. reflexivity.
+  - apply pa_bytes_eqb_refl.
+  - reflexivity.
+  - destruct b; reflexivity.
+Qed.
+
+Lemma pa_row_eqb_refl : forall r, pa_row_eqb r r = true.
+Proof.
+  induction r as [|[c v] r IH]; simpl; [reflexivity|].
+  rewrite pa_col_eqb_refl, pa_val_eqb_refl. exact IH.
+Qed.
+
+(* every row of the batch is still represented: a row is removed only when a kept row has the same
+   serialisation *)
+Lemma pa_distinct_go_complete : forall l seen r, In r l ->
+  exists s, (In s seen \/ In s (pa_distinct_go seen l)) /\ pa_row_eqb s r = true.
+Proof.
+  induction l as [|x l IH]; intros seen r Hin; [destruct Hin|]. simpl.
+  destruct (existsb (fun s => pa_row_eqb s x) seen) eqn:E.
+  - destruct Hin as [->|Hin]; [|apply IH; assumption].
+    apply existsb_exists in E. destruct E as [s [Hs He]]. exists s. split; [left; assumption|assumption].
+  - destruct Hin as [->|Hin].
+    + exists r. split; [right; left; reflexivity|apply pa_row_eqb_refl].
+    + destruct (IH (x :: seen) r Hin) as [s [[[->|Hs]|Hs] He]].
+      * exists s. split; [right; left; reflexivity|assumption].
+      * exists s. split; [left; assumption|assumption].
+      * exists s. split; [right; right; assumption|assumption].
+Qed.
+
+Lemma pa_distinct_complete : forall l r, In r l ->
+  exists s, In s (pa_distinct l) /\ pa_row_eqb s r = true.
+Proof.
+  intros l r Hin. destruct (pa_distinct_go_complete l [] r Hin) as [s [[[]|Hs] He]].
+  exists s. split; assumption.
+Qed.
+
+(* values of different Go types are never equal, whatever they print: 7 / "7", true / "true", NULL / "<nil>" *)
+Definition pa_val_kind (v : pa_val) : nat :=
+  match v with PaNum _ => 0 | PaStr _ => 1 | PaNull => 2 | PaBool _ => 3 end.
+Lemma pa_val_eqb_kind : forall a b, pa_val_eqb a b = true -> pa_val_kind a = pa_val_kind b.
+Proof. intros [x|s| |b] [y|t| |c]; simpl; intro H; try discriminate; reflexivity. Qed.
+
+(* two rows that carry values of different types in one column have different serialisations *)
+Lemma pa_row_eqb_typed : forall a b c v w,
+  pa_lookup c a = Some v -> pa_lookup c b = Some w -> pa_val_kind v <> pa_val_kind w -> pa_row_eqb a b = false.
+Proof.
+  intros a b c v w Ha Hb Hk. destruct (pa_row_eqb a b) eqn:E; [|reflexivity].
+  pose proof (pa_row_eqb_lookup a b c E) as H. rewrite Ha, Hb in H. simpl in H.
+  apply pa_val_eqb_kind in H. contradiction.
+Qed.
+
+(* so DISTINCT keeps both rows of a pair that differs only in the type of a value *)
+Lemma pa_distinct_keeps_typed : forall l r,
+  In r l ->
+  (forall r', In r' l -> r' = r \/ exists c v w, pa_lookup c r' = Some v /\ pa_lookup c r = Some w
+                                   /\ pa_val_kind v <> pa_val_kind w) ->
+  In r (pa_distinct l).
+Proof.
+  intros l r Hin Hoth. destruct (pa_distinct_complete l r Hin) as [s [Hs He]].
+  destruct (Hoth s (pa_distinct_incl l s Hs)) as [->|[c [v [w [Hv [Hw Hk]]]]]]; [assumption|].
+  rewrite (pa_row_eqb_typed s r c v w Hv Hw Hk) in He. discriminate.
+Qed.
